@@ -347,7 +347,7 @@ appcfg.app_name = _app_name_wrap
 # ---------------------------------------------------------------------------
 
 class Snap:
-    __slots__ = ('running', 'cleanup', 'apps', 'cache', 'ready')
+    __slots__ = ('running', 'cleanup', 'apps', 'cache', 'ready', 'other')
 
     def targets(self):
         """container -> sorted [(dir, link name)]"""
@@ -515,14 +515,17 @@ class NodeWorld:
         self.mgr._is_active = False  # pylint: disable=protected-access
 
     # -- observation ----------------------------------------------------------
-    def _links(self, d):
+    def _links(self, d, other):
+        """Symlinks of a scan directory.  Anything else (a plain file or a
+        directory) is not a link in the sense of the property: kept in the
+        canonical state, ignored by the oracle."""
         out = {}
         for name in os.listdir(d):
             p = os.path.join(d, name)
             try:
                 tgt = os.readlink(p)
             except OSError:
-                out[name] = '!notalink'
+                other.append((os.path.basename(d), str(self.lname(name))))
                 continue
             if os.path.dirname(tgt) == self.apps_dir:
                 out[name] = os.path.basename(tgt)
@@ -532,8 +535,10 @@ class NodeWorld:
 
     def snapshot(self):
         s = Snap()
-        s.running = self._links(self.running_dir)
-        s.cleanup = self._links(self.cleanup_dir)
+        other = []
+        s.running = self._links(self.running_dir, other)
+        s.cleanup = self._links(self.cleanup_dir, other)
+        s.other = tuple(sorted(other))
         s.apps = {}
         for c in os.listdir(self.apps_dir):
             try:
@@ -578,6 +583,7 @@ class NodeWorld:
                      for c, f in sorted(snap.apps.items())},
             'cache': {k: [g, bool(self.bad.get((k, g)))]
                       for k, g in sorted(snap.cache.items())},
+            'not_links': ['%s/%s' % o for o in snap.other],
         }
 
     # -- oracle: every state --------------------------------------------------
@@ -776,7 +782,18 @@ class NodeWorld:
         if self.harness_error:
             raise statex.HarnessError('stand-in failed: %s'
                                       % self.harness_error)
+        pre = self.prev
         self.observe()
+        if self.cfg.get('late_tomb') and actor.startswith('AppCfgMgr'):
+            # a container taken out of running/ is killed by svscan; its
+            # finish script (limit 0) leaves a tombstone named after the
+            # instance, which the monitor processes some time later
+            for name, tgt in pre.running.items():
+                key = KEY_OF.get(name)
+                if key and name not in self.prev.running and \
+                        tgt in self.prev.apps and \
+                        key not in [t[0] for t in self.tombs]:
+                    self.tombs.append((key, 15))
         self.actor = 'harness'
         return ok
 
@@ -1018,7 +1035,7 @@ class NodeWorld:
             name = INSTANCE[key]
             tgt = snap.running.get(name)
             if tgt in snap.apps and key not in [t[0] for t in self.tombs]:
-                for how in cfg['fin']:
+                for how in cfg['fin'][key]:
                     for now in ((1, 0) if cfg.get('late_tomb') else (1,)):
                         menu.append(('fin', key, how, now))
         if self.tombs:
@@ -1048,6 +1065,18 @@ class NodeWorld:
             tuple(self.fifo),
             tuple(self.tombs),
             self.mgr._is_active,  # pylint: disable=protected-access
+            s.other,
+            # directory order of the cache = order in which _synchronize
+            # configures new entries (visible through the crash points)
+            tuple(KEY_OF[n] for n in os.listdir(self.cache_dir)
+                  if n in KEY_OF),
+            # who made each link: steers nothing in the implementation but
+            # decides the site a later violation is attributed to
+            tuple(sorted(
+                (d, str(self.lname(n)), self.site_of(d, n)[1])
+                for d, links in (('running', s.running),
+                                 ('cleanup', s.cleanup))
+                for n in links if not n.startswith('.'))),
         )
 
     def two_generations(self):
